@@ -121,13 +121,18 @@ def discharge(obls, axioms, timeout_ms=20000, jobs=None, use_cvc5=True):
     return results
 
 
-def model_for(obl, axioms, timeout_ms=20000):
-    """Re-solve a failing obligation in-process to obtain a model."""
+def model_for(obl, axioms, timeout_ms=20000, drop_quantified=False):
+    """Re-solve a failing obligation in-process to obtain a model.  drop_quantified: candidate search only -
+    a model of the formula without its quantified assumptions must be confirmed by native replay."""
+    from .engine import _has_quant
+
     s = z3.Solver()
     s.set("timeout", timeout_ms)
     for a in axioms:
         s.add(a)
     for a in obl.assumptions:
+        if drop_quantified and _has_quant(a):
+            continue
         s.add(a)
     if obl.goal is not None:
         s.add(z3.Not(obl.goal))
